@@ -55,3 +55,7 @@ pub fn parse_hex_usize(s: &str) -> (r: core::result::Result<usize, ParseIntError
 pub fn push_until_comment(categories: &mut Vec<String>, cols: &Vec<&str>)
     requires cols.len() >= 1,
 { unimplemented!() }
+
+/// R18: `["1", "0"].contains(&s).then(|| s == "1")` — Some(flag) for "1"/"0", None otherwise; nothing is assumed about which
+#[verifier::external_body]
+pub fn parse_flag(s: &str) -> (r: Option<bool>) { unimplemented!() }
